@@ -4,8 +4,11 @@
    Durable state = (chain db, dkg db {current, finished}, group file, share file).
    A run = the list of persistence operations in the order the code issues them. Each operation
    is crash-atomic: a bbolt Update is one atomic durable write (assumed of bbolt); a file Save
-   (common/key/store.go: Save) is os.Create (create OR TRUNCATE IN PLACE) followed by the write of
-   the TOML text - two crash-visible steps, with a torn middle state inside the second.
+   (common/key/store.go: Save) writes the TOML text into a temporary file next to the target
+   (create, write - with a torn middle state -, Sync, Close) and then renames it over the target:
+   the target itself goes from its previous content to the complete new text in one step. (Until
+   the fix of finding F8-iii, Save truncated the target in place and then wrote it: that variant
+   is kept, selected by [sh_save_in_place], for the regression examples.)
    [crash cp run] = the durable state when the process dies at crash point cp;
    [recover] = what the loaders read at restart (key.fileStore.LoadGroup/LoadShare,
    dkg.BoltStore.GetFinished/GetCurrent, boltdb cursor scan / Last, and the decision procedure of
@@ -41,7 +44,10 @@ Inductive pop :=
 | PDkgTx (puts : list (dbucket * drec))        (* one Update on dkg.db *)
 | PFileCreate (f : kfile)                      (* os.Create: create or truncate *)
 | PFileWrite (f : kfile) (e : Z)               (* the encoder writes epoch e's object *)
-| PFileRemove (f : kfile).                     (* os.RemoveAll *)
+| PFileRemove (f : kfile)                      (* os.RemoveAll *)
+| PTmpCreate (f : kfile)                       (* create/truncate the temporary file next to f *)
+| PTmpWrite (f : kfile) (e : Z)                (* the encoder writes epoch e's object into it, Sync, Close *)
+| PFileRename (f : kfile) (e : Z).             (* os.Rename(temp, f): f atomically becomes the complete text *)
 
 Record dstate := mkS {
   chain : list beacon;                         (* bucket "beacons", in key (round) order *)
@@ -85,6 +91,11 @@ Definition apply_op (s : dstate) (o : pop) : dstate :=
   | PFileCreate f => set_file f FEmpty s
   | PFileWrite f e => set_file f (FFull e) s
   | PFileRemove f => set_file f FAbsent s
+  (* the temporary file is never read by any loader: whatever it holds (nothing, a prefix, the
+     whole text) is not part of the state a restart sees *)
+  | PTmpCreate _ => s
+  | PTmpWrite _ _ => s
+  | PFileRename f e => set_file f (FFull e) s
   end.
 
 Definition apply_ops (s : dstate) (ops : list pop) : dstate := fold_left apply_op ops s.
@@ -211,11 +222,16 @@ Record shape := mkShape {
   sh_reset : list kfile;                    (* fileStore.Reset: order of the Delete calls *)
   sh_finish_db_first : bool;                (* executeAndFinishDKG: SaveFinished precedes the hand-over *)
   sh_chain_put : list (list Z);             (* boltdb Put: transactions, number of bucket.Put in each *)
-  sh_save_in_place : bool;                  (* key.Save: create/truncate the target itself, then write *)
+  sh_save_in_place : bool;                  (* key.Save: true = create/truncate the target itself, then write;
+                                               false = write a temporary file completely, then rename it over the target *)
   sh_cb_write_first : bool                  (* callbackStore.Put: the underlying Put (error => return) precedes the dispatch *)
 }.
 
 Definition expected_shape : shape :=
+  mkShape [[BCurrent]] [[BFinished; BCurrent]] [KSave KGroup; KSave KShare] [KGroup; KShare] true [[1]] false true.
+
+(* the shape of the code before the fixes of key.Save (in place) and fileStore.Reset (share first) *)
+Definition pre_fix_shape : shape :=
   mkShape [[BCurrent]] [[BFinished; BCurrent]] [KSave KGroup; KSave KShare] [KShare; KGroup] true [[1]] true true.
 
 Definition shape_eqb_bucket (a b : dbucket) : bool :=
@@ -232,14 +248,16 @@ Inductive event :=
 Definition dkg_txs (txs : list (list dbucket)) (r : drec) : list pop :=
   map (fun tx => PDkgTx (map (fun b => (b, r)) tx)) txs.
 
-Definition save_file (f : kfile) (e : Z) : list pop := [PFileCreate f; PFileWrite f e].
+Definition save_file (in_place : bool) (f : kfile) (e : Z) : list pop :=
+  if in_place then [PFileCreate f; PFileWrite f e]
+  else [PTmpCreate f; PTmpWrite f e; PFileRename f e].
 
 Definition expand (sh : shape) (ev : event) : list pop :=
   match ev with
   | EvStage r => dkg_txs (sh_save_current sh) r
   | EvComplete r =>
       let files := flat_map (fun c => match c with
-                                      | KSave f => save_file f (d_epoch r)
+                                      | KSave f => save_file (sh_save_in_place sh) f (d_epoch r)
                                       | KReset => map PFileRemove (sh_reset sh)
                                       end) (sh_store_output sh) in
       if sh_finish_db_first sh then dkg_txs (sh_save_finished sh) r ++ files
@@ -270,7 +288,7 @@ Definition is_left (s : dstate) : bool :=
 
 (* group file and share belong to one and the same epoch, namely the latest epoch the database
    records as completed, and the node restarts without repair. A node with no completed DKG has no
-   files; a node that recorded that it left may have removed both. *)
+   files; a node that recorded that it left has no group file (and then nothing else is loaded). *)
 Definition files_consistent (s : dstate) : bool :=
   match fin s with
   | None =>
@@ -283,7 +301,9 @@ Definition files_consistent (s : dstate) : bool :=
       | FFull ge, FFull se =>
           (ge =? d_epoch r) && (se =? d_epoch r) &&
           match node_restart s with RRunning _ _ => true | _ => false end
-      | FAbsent, FAbsent => is_left s
+      (* no group file: the node left (Reset removes the group first); a share file that outlived
+         a crash inside Reset is inert, nothing loads it without the group *)
+      | FAbsent, _ => is_left s
       | _, _ => false
       end
   end.
@@ -298,6 +318,7 @@ Definition class_db_ahead (s : dstate) : bool :=          (* (i) *)
 Definition class_epoch_mismatch (s : dstate) : bool :=    (* (ii) *)
   match gfile s, sfile s with
   | FFull ge, FFull se => negb (ge =? se)
+  | FFull _, FAbsent => negb (is_left s)     (* first DKG: the group is there, the share not yet *)
   | _, _ => false
   end.
 Definition class_torn (s : dstate) : bool :=              (* (iii) *)
@@ -305,9 +326,9 @@ Definition class_torn (s : dstate) : bool :=              (* (iii) *)
   | FEmpty, _ | FTorn _, _ | _, FEmpty | _, FTorn _ => true
   | _, _ => false
   end.
-Definition class_half_reset (s : dstate) : bool :=        (* leaving: one file removed *)
+Definition class_half_reset (s : dstate) : bool :=        (* leaving: share removed, group still there *)
   match gfile s, sfile s with
-  | FFull _, FAbsent | FAbsent, FFull _ => true
+  | FFull _, FAbsent => is_left s
   | _, _ => false
   end.
 
